@@ -75,6 +75,30 @@ theorem incRef_refed_matches (k : Kind) (hk : k.isStr = false) (r : Nat) :
   unfold incRef NV.Gen.C06.refedInc
   rw [if_neg (by simp [hk])]
 
+/-! ### programs: `program_t.ref` is a cell of the heap model (kind `.prog`)
+
+The model counts program references at the width `W` of `refed_t.ref`; `prog_widths_agree` is the obligation that
+`program_t.ref` (and `func_ref`) really have that width (they had 16 bits until repo commit 0280873: see
+`Witness.prog_wrap_uaf`), `incRef_prog_matches` / `decRef_prog_matches` tie the model's updates to the regenerated
+bodies of reference_prog / free_prog (with `func_ref = 0`: the harness program has no function pointers compiled in). -/
+
+theorem prog_widths_agree : NV.Gen.C06.progRefBits = W ∧ NV.Gen.C06.progFuncRefBits = W := by decide
+
+theorem incRef_prog_matches (r : Nat) : incRef .prog r 1 = NV.Gen.C06.progInc r := by
+  unfold incRef NV.Gen.C06.progInc
+  rw [if_neg (by simp [Kind.isStr])]
+  rw [prog_widths_agree.1]
+
+theorem decRef_prog_matches (r : Nat) : decRef .prog r = NV.Gen.C06.progDec r 0 := by
+  unfold decRef NV.Gen.C06.progDec
+  rw [if_neg (by simp [Kind.isStr])]
+  rw [prog_widths_agree.1]
+  show ((r + 2 ^ W - 1) % 2 ^ W, (r + 2 ^ W - 1) % 2 ^ W == 0) = _
+  generalize (r + 2 ^ W - 1) % 2 ^ W = x
+  cases x with
+  | zero => simp
+  | succ n => simp
+
 /-- the hypothesis of the task (`holders ≤ 2^W − 1` for every value) implies `Fits` -/
 theorem Fits_of_le (s : St) (h : ∀ c, H s c ≤ 2 ^ W - 1) : Fits s := by
   intro c
@@ -98,7 +122,7 @@ theorem ref_eq_holders (ops : List Op) (s : St) (h : run St.init ops = .ok s) (f
   rw [inv.1, Nat.mod_eq_of_lt hlt]
 
 example : ∃ s cell, run St.init [.newarr 0 2, .assign 1 0, .newmap 2, .mset 2 0 0, .push 0] = .ok s ∧
-    s.heap[0]? = some cell ∧ cell.ref = 5 ∧ H s 0 = 5 := by
+    s.heap[2]? = some cell ∧ cell.ref = 5 ∧ H s 2 = 5 := by
   refine ⟨_, _, rfl, rfl, ?_, ?_⟩ <;> decide
 
 /-- **no_free_while_held.**  Under the same hypothesis a deallocated cell has no holder left: no variable, stack
@@ -111,7 +135,76 @@ theorem no_free_while_held (ops : List Op) (s : St) (h : run St.init ops = .ok s
   exact inv
 
 example : ∃ s cell, run St.init [.newarr 0 2, .newarr 1 1, .aset 0 0 1, .free 1, .free 0] = .ok s ∧
-    s.heap[1]? = some cell ∧ cell.live = false := ⟨_, _, rfl, rfl, rfl⟩
+    s.heap[3]? = some cell ∧ cell.live = false := ⟨_, _, rfl, rfl, rfl⟩
+
+/-- a pointer stored in a container counts as a holder -/
+theorem heapCnt_pos_of_mem (p : Nat) (h : List Cell) (d : Nat) (dc : Cell) (hd : h[d]? = some dc)
+    (hm : Val.ptr p ∈ dc.items) : 0 < heapCnt p h := by
+  induction h generalizing d with
+  | nil => simp at hd
+  | cons a t ih =>
+    rw [heapCnt_cons]
+    cases d with
+    | zero =>
+      simp at hd
+      subst hd
+      have : 0 < cnt p a.items := by unfold cnt; exact List.count_pos_iff.mpr hm
+      omega
+    | succ j =>
+      have := ih j (by simpa using hd)
+      omega
+
+/-- **no_dangling_reference.**  After any history in which the holders always fit the counters, every pointer that
+    is stored anywhere — a variable, a stack slot, a handle, the object list, a pending call_out, a sentence, a value
+    in transit, an element of a container, a variable of an object, the program field of an object structure, the
+    inherit table of a program — refers to a cell that is allocated and has not been deallocated. -/
+theorem no_dangling_reference (ops : List Op) (s : St) (h : run St.init ops = .ok s) (fit : FitsRun St.init ops)
+    (p : Nat) (held : 0 < H s p) : ∃ cell, s.heap[p]? = some cell ∧ cell.live = true := by
+  have inv := run_ok ops St.init s h Inv_init fit p
+  unfold CellOK at inv
+  cases hc : s.heap[p]? with
+  | none =>
+    have : metaOf s p = none := by unfold metaOf; rw [hc]; rfl
+    rw [this] at inv
+    simp only at inv
+    omega
+  | some cell =>
+    rw [metaOf_some s p cell hc] at inv
+    cases hl : cell.live with
+    | true => exact ⟨cell, rfl, hl⟩
+    | false =>
+      rw [hl] at inv
+      simp only at inv
+      omega
+
+/-- **program_alive_while_referenced.**  Under the same hypothesis, whatever a live cell stores a pointer to is live:
+    in particular the program of every object structure that has not been deallocated (`ob->prog`, item `nVars` of an
+    object cell; the object may be destructed and waiting for its last holder) and every program in the inherit table
+    of a live program are allocated — free_prog never deallocates a program some object or program still uses. -/
+theorem program_alive_while_referenced (ops : List Op) (s : St) (h : run St.init ops = .ok s)
+    (fit : FitsRun St.init ops) (d : Nat) (dc : Cell) (hd : s.heap[d]? = some dc) (p : Nat)
+    (hm : Val.ptr p ∈ dc.items) : ∃ pc, s.heap[p]? = some pc ∧ pc.live = true := by
+  apply no_dangling_reference ops s h fit p
+  have := heapCnt_pos_of_mem p s.heap d dc hd hm
+  unfold H
+  omega
+
+/-- **prog_ref_eq_holders.**  `program_t.ref` of a live program equals the number of its holders (blueprint object,
+    object structures of clones, inheriting programs) modulo 2^W, and exactly when they fit. -/
+theorem prog_ref_eq_holders (ops : List Op) (s : St) (h : run St.init ops = .ok s) (fit : FitsRun St.init ops)
+    (c : Nat) (cell : Cell) (hc : s.heap[c]? = some cell) (hl : cell.live = true) (hk : cell.kind = .prog) :
+    cell.ref = H s c % 2 ^ W ∧ (H s c < 2 ^ W → cell.ref = H s c ∧ 0 < H s c) :=
+  ref_eq_holders ops s h fit c cell hc hl (by rw [hk]; rfl)
+
+/-- non-vacuity: two named clones and three anonymous ones; the program of /c06/uobj has 6 holders, the inherited
+    program 2; after the blueprint is unloaded and all clones are gone both programs are deallocated -/
+example : ∃ s pc bc, run St.init [.newobj 0, .newobj 1, .clones 3] = .ok s ∧
+    s.heap[cProg]? = some pc ∧ pc.ref = 6 ∧ H s cProg = 6 ∧ s.heap[cBase]? = some bc ∧ bc.ref = 2 ∧ H s cBase = 2 := by
+  refine ⟨_, _, _, rfl, rfl, ?_, ?_, rfl, ?_, ?_⟩ <;> decide
+
+example : ∃ s pc bc, run St.init [.newobj 0, .clones 2, .unload 0, .unload 1, .unclone 2, .dest 0, .cleanup, .drop 0] = .ok s ∧
+    s.heap[cProg]? = some pc ∧ pc.live = false ∧ s.heap[cBase]? = some bc ∧ bc.live = false ∧ H s cProg = 0 ∧ H s cBase = 0 := by
+  refine ⟨_, _, _, rfl, rfl, ?_, rfl, ?_, ?_, ?_⟩ <;> decide
 
 /-- the same for all sequences of primitive calls (micro-instructions), from any state satisfying the invariant -/
 theorem primitives_preserve_invariant (prog : List Mi) (s s' : St) (h : runMi s prog = .ok s') (inv : Inv s)
@@ -175,7 +268,7 @@ theorem string_cells_never_freed_while_held (ops : List Op) (s : St) (h : run St
     exact inv
 
 example : ∃ s cell, run St.init [.newstr 0 "a", .newstr 1 "a", .fill 2 3 0, .free 0, .free 1, .free 2] = .ok s ∧
-    s.heap[0]? = some cell ∧ cell.kind = .str ∧ cell.live = false := ⟨_, _, rfl, rfl, rfl, rfl⟩
+    s.heap[2]? = some cell ∧ cell.kind = .str ∧ cell.live = false := ⟨_, _, rfl, rfl, rfl, rfl⟩
 
 /-! ### a string block is modified in place only by its single holder
 
@@ -273,7 +366,7 @@ theorem add_never_inplace (k : Kind) (hk : k.isStr = true) (r : Nat) :
 /-- non-vacuity: the single holder of a run-time string appends in place; with a second holder a copy is made and the
     other holder keeps its text -/
 example : inPlaceTarget (match run St.init [.newmstr 0 "ab"] with | .ok s => s | .error _ => St.init) (.sappend 0 "7")
-    = some 0 := by decide
+    = some 2 := by decide
 example : ∃ s c0 c1, run St.init [.newmstr 0 "ab", .assign 1 0, .schar 1 0 "z"] = .ok s ∧
     strSlot s 0 = some c0 ∧ c0.2.text = "ab" ∧ strSlot s 1 = some c1 ∧ c1.2.text = "zb" :=
   ⟨_, _, _, rfl, rfl, by decide, rfl, by decide⟩
@@ -297,9 +390,9 @@ theorem string_saturates (n : Nat) (hn : 2 ^ SW ≤ 1 + n) : incRef .str 1 n = 0
 theorem counters_exact (ops : List Op) (s : St) (h : run St.init ops = .ok s) :
     s.stats.numArrays = (lc .arr s.heap : Int) ∧ s.stats.numMappings = (lc .map s.heap : Int) ∧
     s.stats.objects = (lc .obj s.heap : Int) :=
-  ⟨run_count cArrays ops St.init s h (CountOK_init cArrays rfl),
-   run_count cMappings ops St.init s h (CountOK_init cMappings rfl),
-   run_count cObjects ops St.init s h (CountOK_init cObjects rfl)⟩
+  ⟨run_count cArrays ops St.init s h (CountOK_init cArrays rfl (by decide)),
+   run_count cMappings ops St.init s h (CountOK_init cMappings rfl (by decide)),
+   run_count cObjects ops St.init s h (CountOK_init cObjects rfl (by decide))⟩
 
 theorem lc_zero_of_all (k0 : Kind) (h : List Cell) (hall : ∀ cell ∈ h, cell.live = true → cell.kind ≠ k0) : lc k0 h = 0 := by
   unfold lc
@@ -349,11 +442,29 @@ theorem balanced_history_returns_to_baseline (ops : List Op) (s : St) (h : run S
   · rw [b, nolive .map rfl]; rfl
   · rw [c, nolive .obj rfl]; rfl
 
+/-- **unreferenced_is_deallocated** (per value): after any history in which the holders always fit, a value other than
+    a string that nothing refers to any more has been deallocated — whatever else is still alive.  (Strings: only a
+    saturated, immortal one can survive without holders, `string_cells_never_freed_while_held`.) -/
+theorem unreferenced_is_deallocated (ops : List Op) (s : St) (h : run St.init ops = .ok s) (fit : FitsRun St.init ops)
+    (c : Nat) (cell : Cell) (hc : s.heap[c]? = some cell) (hk : cell.kind.isStr = false) (h0 : H s c = 0) :
+    cell.live = false := by
+  have i := run_ok ops St.init s h Inv_init fit c
+  unfold CellOK at i
+  rw [metaOf_some s c cell hc, h0] at i
+  cases hl : cell.live with
+  | false => rfl
+  | true =>
+    rw [hl] at i
+    simp only [RefOK, hk] at i
+    simp only [Bool.false_eq_true, if_false] at i
+    have := i.2 two_pow_W_pos
+    omega
+
 /-- non-vacuity: a history that shares one array between a variable, a container, a mapping, an object variable,
     a function pointer, a pending call_out and a sentence, and then releases everything -/
 def balancedExample : List Op :=
   [.newarr 0 2, .newmap 1, .newobj 0, .mset 1 0 0, .setvar 0 1 0, .newfun 2 0 0, .call 0 0 1 0 1, .sent 0 0 0 1,
-   .free 0, .free 1, .free 2, .sweep, .dest 0, .cleanup, .drop 0]
+   .free 0, .free 1, .free 2, .sweep, .dest 0, .cleanup, .drop 0, .unload 0, .unload 1]
 
 example : ∃ s, run St.init balancedExample = .ok s ∧ (∀ c, c < s.heap.length → H s c = 0) ∧
     s.stats.numArrays = 0 ∧ s.stats.objects = 0 := by
